@@ -20,6 +20,7 @@ import (
 	"regexp"
 	"runtime"
 	"runtime/debug"
+	"sort"
 	"strconv"
 	"strings"
 	"sync"
@@ -244,23 +245,101 @@ var wdOnce sync.Once
 func startWatchdog() {
 	wdOnce.Do(func() {
 		go func() {
+			var lastFix string
+			fixCount := 0
 			for {
 				time.Sleep(500 * time.Millisecond)
 				c := curCase.Load()
 				st := curWall.Load()
 				if c == nil || st == 0 {
+					lastFix, fixCount = "", 0
 					continue
 				}
-				if time.Since(time.Unix(0, st)) > time.Duration(c.Spec.WallS)*time.Second {
-					buf := make([]byte, 1<<22)
+				elapsed := time.Since(time.Unix(0, st))
+				reason := ""
+				var buf []byte
+				if elapsed > time.Duration(c.Spec.WallS)*time.Second {
+					reason = fmt.Sprintf("wall-clock watchdog (%d s) fired", c.Spec.WallS)
+				} else if elapsed > 5*time.Second {
+					// a bubble whose virtual time cannot advance: every goroutine of the process is blocked, at least one
+					// bubble goroutine on a sync mutex (not a durable wait), and nothing has changed over four samples. This
+					// does not depend on the load of the machine (a goroutine waiting for a CPU is runnable, not blocked).
+					// It is NOT a verdict: the lock may have leaked (deadlock), or it is held across a simulated delay
+					// (an artefact of virtual time) - the two cannot be told apart from outside.
+					buf = make([]byte, 1<<22)
 					buf = buf[:runtime.Stack(buf, true)]
+					if sig, frame := stallSignature(buf); sig != "" && sig == lastFix {
+						fixCount++
+						if fixCount >= 3 {
+							reason = "virtual time cannot advance: a goroutine is blocked on a sync mutex in " + frame + " while every other goroutine is blocked (lock never released, or held across a simulated delay); wall-clock watchdog"
+						}
+					} else {
+						lastFix, fixCount = sig, 0
+					}
+				}
+				if reason != "" {
+					if buf == nil {
+						buf = make([]byte, 1<<22)
+						buf = buf[:runtime.Stack(buf, true)]
+					}
 					emit(map[string]any{"type": "inconclusive", "prop": c.Spec.Prop, "unit": c.Spec.Unit, "idx": c.Idx, "seed": c.Seed,
-						"reason": fmt.Sprintf("wall-clock watchdog (%d s) fired", c.Spec.WallS), "desc": c.descCopy(), "dump": trim(string(buf), 60000)})
+						"reason": reason, "desc": c.descCopy(), "dump": trim(string(buf), 60000)})
 					os.Exit(4)
 				}
 			}
 		}()
 	})
+}
+
+var goHdrRe = regexp.MustCompile(`^goroutine (\d+) \[([^\],]+)`)
+
+// stallSignature returns a canonical description of the goroutine states of a dump if the process is at a fixed
+// point with a bubble goroutine blocked on a sync mutex ("" otherwise), and the function of the module under test
+// in which that goroutine is blocked.
+func stallSignature(dump []byte) (string, string) {
+	var parts []string
+	frame := ""
+	for i, g := range Goroutines(dump) {
+		if i == 0 {
+			continue // the watchdog itself (the goroutine calling runtime.Stack comes first)
+		}
+		first, _, _ := strings.Cut(g, "\n")
+		m := goHdrRe.FindStringSubmatch(first)
+		if m == nil {
+			return "", ""
+		}
+		state := strings.TrimSuffix(strings.TrimSpace(m[2]), " (durable)")
+		switch state {
+		case "chan receive", "chan send", "select", "sleep", "sync.WaitGroup.Wait", "sync.Cond.Wait", "semacquire", "IO wait",
+			"synctest.Run", "synctest.Wait", "select (no cases)", "chan receive (nil chan)", "chan send (nil chan)":
+		case "sync.Mutex.Lock", "sync.RWMutex.Lock", "sync.RWMutex.RLock":
+			if strings.Contains(first, "synctest bubble") && frame == "" {
+				if f := TopRepoFrame([]byte(g)); f != "unknown" {
+					frame = f
+				}
+			}
+		case "syscall":
+			if !strings.Contains(g, "os/signal.signal_recv") {
+				return "", ""
+			}
+		default:
+			return "", "" // running, runnable, GC states, anything unknown: not a fixed point
+		}
+		lines := strings.SplitN(g, "\n", 3)
+		top := ""
+		if len(lines) > 1 {
+			top = lines[1]
+			if i := strings.LastIndex(top, "("); i > 0 {
+				top = top[:i]
+			}
+		}
+		parts = append(parts, m[1]+":"+state+":"+top)
+	}
+	if frame == "" {
+		return "", ""
+	}
+	sort.Strings(parts)
+	return strings.Join(parts, "|"), frame
 }
 
 func (c *Case) descCopy() map[string]any {
